@@ -36,7 +36,7 @@ theorem step_frameK {P : Params κ} {A : AdmSpec κ} (hG : GoodK P A) {cfg : Cfg
     (∀ p, p ∉ outPaths t0 → (buildTarget P cfg defs fuel t0 s).fs p = s.fs p) ∧
     (∀ v, s.cache.cas v = true → (buildTarget P cfg defs fuel t0 s).cache.cas v = true) ∧
     (∀ l, l ≠ t0.label → (buildTarget P cfg defs fuel t0 s).cache.taint l = s.cache.taint l) ∧
-    (∀ k, (∀ ohs, k ≠ P.K (keyState t0 s.fs ohs)) → (buildTarget P cfg defs fuel t0 s).cache.res k = s.cache.res k) := by
+    (∀ k, (∀ ohs, depOhs s.st t0.hdeps = some ohs → k ≠ P.K (keyState t0 s.fs ohs)) → (buildTarget P cfg defs fuel t0 s).cache.res k = s.cache.res k) := by
   have hcase := buildTarget_all P cfg defs fuel t0 s hm
   have hexec : ∀ (k : κ) (s2 : BState κ) (b : Bool), execTarget P cfg defs t0 k (s.cache.taint t0.label) s = (s2, b) →
       ∀ p, p ∉ outPaths t0 → s2.fs p = s.fs p := by
@@ -67,7 +67,7 @@ theorem step_frameK {P : Params κ} {A : AdmSpec κ} (hG : GoodK P A) {cfg : Cfg
     · rw [htaint]; split
       · exact upd_other _ _ _ _ hl
       · rfl
-    · rw [hres]; exact upd_other _ _ _ _ (hk ohs)
+    · rw [hres]; exact upd_other _ _ _ _ (hk ohs h2)
   | failed ohs s2 h h2 h3 e e2 =>
     obtain ⟨hc, hst, _⟩ := execTarget_false e
     rw [e2]
@@ -80,8 +80,9 @@ theorem step_frame {P : Params κ} (hG : Good P) {cfg : Cfg} (hm : cfg.minimal =
     (∀ p, p ∉ outPaths t0 → (buildTarget P cfg defs fuel t0 s).fs p = s.fs p) ∧
     (∀ v, s.cache.cas v = true → (buildTarget P cfg defs fuel t0 s).cache.cas v = true) ∧
     (∀ l, l ≠ t0.label → (buildTarget P cfg defs fuel t0 s).cache.taint l = s.cache.taint l) ∧
-    (∀ k, (∀ ohs, k ≠ P.K (keyState t0 s.fs ohs)) → (buildTarget P cfg defs fuel t0 s).cache.res k = s.cache.res k) :=
-  step_frameK (GoodK_of_Good hG) hm defs fuel t0 hw s
+    (∀ k, (∀ ohs, k ≠ P.K (keyState t0 s.fs ohs)) → (buildTarget P cfg defs fuel t0 s).cache.res k = s.cache.res k) := by
+  obtain ⟨h1, h2, h3, h4, h5⟩ := step_frameK (GoodK_of_Good hG) hm defs fuel t0 hw s
+  exact ⟨h1, h2, h3, h4, fun k hk => h5 k (fun ohs _ => hk ohs)⟩
 
 /-- the contents of all resolved inputs are admissible -/
 def InOk (A : AdmSpec κ) (defs : Defs) (order : List Lbl) (fs : FS) : Prop :=
@@ -167,11 +168,11 @@ theorem settled_stepK {P : Params κ} {A : AdmSpec κ} (hG : GoodK P A) {cfg : C
     refine ⟨t, ts, ohs, r, ht, by rw [hst]; exact hts, hk, by rw [ohs_frame _ (deps_pre l hl t ht)]; exact hoh, ?_, hroh, hv,
       fun ov hov => hfcas _ (hb ov hov), by rw [hftaint l (by rw [hlab0]; exact hne)]; exact hta,
       by rw [fs_checks l (hpo l hl) t ht]; exact hch⟩
-    rw [hks, hfres _ (fun ohs' e => ?_)]
+    rw [hks, hfres _ (fun ohs' hohs' e => ?_)]
     · exact hres
     · have hl' : (keyState t s.fs ohs).label = (keyState t0 s.fs ohs').label :=
-        (hG.inj _ _ (hG.admKs t s.fs ohs (hT l (hpo l hl) t ht) (hin l (hpo l hl) t ht))
-          (hG.admKs t0 s.fs ohs' (hT l0 hl0o t0 ht0) (hin l0 hl0o t0 ht0)) e).1
+        (hG.inj _ _ (hG.admKs t s.fs ohs (hT l (hpo l hl) t ht) (hin l (hpo l hl) t ht) (depOhs_length hoh))
+          (hG.admKs t0 s.fs ohs' (hT l0 hl0o t0 ht0) (hin l0 hl0o t0 ht0) (depOhs_length hohs')) e).1
       simp only [keyState] at hl'
       rw [hlab, hlab0] at hl'; exact hne hl'
   · -- the target just processed
